@@ -248,8 +248,8 @@ def run(rep, tier):
         else:
             jobs = [("c15", ["tseitin", vec, ev, sev, seed(), 2, 1800, "prove"], env),
                     ("c15", ["rformulas", 1000, rev, rsev, seed(), "prove"], env),
-                    ("c15", ["repeats", vec, pev, psev, 0, "prove"], env)]
-        run_drivers_parallel(jobs, timeout=6000, max_workers=3 if quick else 2)
+                    ("c15", ["repeats", vec, pev, psev, 0], env)]
+        run_drivers_parallel(jobs, timeout=6000, max_workers=3)
         evs = _merge([ev, rev, pev], wd / "all_tseitin.ndjson")
         out["evs"] = evs
         out["T"] = _validate_with_selftest(rep, "C15_TseitinTrace", evs, _corrupt_tseitin(evs), wd / "allst_tseitin.ndjson",
